@@ -321,7 +321,8 @@ def run(F, R):
         # monotonic-clock-went-backwards arm (named exception: TimeSource contract)
         none_edges = []
         for (a, b, names) in sm.outcome_edges(S, "std::option::Option", "None"):
-            if a in L and S.nodes[a].ctx is hdr_ctx and "checked_duration_since" in fmt_t(hdr_ctx.bv.trace_place(hdr_ctx.bv.switch_subject(S.nodes[a].bi)[0])):
+            # (the computation may sit in a helper spliced below the loop's function)
+            if a in L and smod.descends(S.nodes[a].ctx, hdr_ctx) and "checked_duration_since" in fmt_t(S.nodes[a].ctx.bv.trace_place(S.nodes[a].ctx.bv.switch_subject(S.nodes[a].bi)[0])):
                 none_edges.append((a, b))
         exits_of_loop = set(w for v in L for w in S.succ[v] if w not in L)
         tgt = exits_of_loop | {req}
